@@ -39,7 +39,8 @@ Record fut := mkFut {
   f_cancel : bool         (* cancel signal sent, not yet looked at *)
 }.
 Record rdr := mkRd { r_peer : N; r_irid : N; r_chan : N }.
-Record rsp := mkRs { s_irid : N; s_chan : N; s_w : option (N * N * N) (* len, tag, deadline *) }.
+Record rsp := mkRs { s_irid : N; s_chan : N; s_w : option (N * N * N) (* len, tag, deadline *);
+                     s_fb : bool (* send_response_with_feedback *) }.
 
 (* protocol state *)
 Record pst := mkP {
@@ -72,7 +73,10 @@ Inductive out :=
 | OResp (rid len tag : N)               (* RequestResponseEvent::ResponseReceived *)
 | OFail (rid code : N)                  (* RequestResponseEvent::RequestFailed *)
 | OReq (irid peer len tag : N)          (* RequestResponseEvent::RequestReceived *)
-| OWire (chan len tag : N).             (* a whole frame arrived at the remote end of a carrier *)
+| OWire (chan len tag : N)              (* a whole frame arrived at the remote end of a carrier *)
+| OFeed (irid : N) (ok : bool)          (* feedback channel of send_response_with_feedback: () / dropped *)
+| OBind (chan rid : N).                 (* ghost (not printed): on_outbound_substream handed carrier
+                                           chan to the future of request rid *)
 
 (* error codes of RequestFailed *)
 Definition E_CONN_CLOSED : N := 0.      (* Rejected(ConnectionClosed) *)
@@ -203,20 +207,24 @@ Definition complete (s : pst) (f : fut) (r : fres) : pst * list out :=
 
 (* on_outbound_substream on carrier c, followed by the first poll of the new future.
    gate: 0 = the carrier does not accept bytes yet, 1 = it does, 2 = writing fails. *)
+Definition opened_body (cf : cfg) (s : pst) (po : pout) (c gate now : N) : pst * list out :=
+  let s := set_pouts s (drop_po po (pouts s)) in
+  let q := po_req po in
+  let p := po_peer po in
+  if max_size cf <? q_len q then settle s p (q_rid q) (RErr E_TOO_LARGE)
+  else match gate with
+       | 0 => (set_futs s (futs s ++ [mkFut p q c false (now + tmo cf) false]), [])
+       | 1 => (set_futs s (futs s ++ [mkFut p q c true (now + tmo cf) false]),
+               [OWire c (q_len q) (q_tag q)])
+       | _ => settle s p (q_rid q) (RErr E_SUBSTREAM)
+       end.
+
 Definition h_opened (cf : cfg) (s : pst) (sid c gate now : N) : pst * list out :=
   match find_po sid (pouts s) with
   | None => (s, [])
   | Some po =>
-    let s := set_pouts s (drop_po po (pouts s)) in
-    let q := po_req po in
-    let p := po_peer po in
-    if max_size cf <? q_len q then settle s p (q_rid q) (RErr E_TOO_LARGE)
-    else match gate with
-         | 0 => (set_futs s (futs s ++ [mkFut p q c false (now + tmo cf) false]), [])
-         | 1 => (set_futs s (futs s ++ [mkFut p q c true (now + tmo cf) false]),
-                 [OWire c (q_len q) (q_tag q)])
-         | _ => settle s p (q_rid q) (RErr E_SUBSTREAM)
-         end
+    let '(s1, o) := opened_body cf s po c gate now in
+    (s1, OBind c (q_rid (po_req po)) :: o)
   end.
 
 Definition find_fut (c : N) (l : list fut) : option fut := find (fun f => f_chan f =? c) l.
@@ -298,7 +306,7 @@ Definition h_inread (s : pst) (c : N) (good : bool) (len tag : N) : pst * list o
     let key := (r_peer r, r_irid r) in
     if memN (r_peer r) (peers s) && memP key (inb s) then
       let s := set_inb s (removeP key (inb s)) in
-      if good then (set_rsps s (rsps s ++ [mkRs (r_irid r) c None]), [OReq (r_irid r) (r_peer r) len tag])
+      if good then (set_rsps s (rsps s ++ [mkRs (r_irid r) c None false]), [OReq (r_irid r) (r_peer r) len tag])
       else (s, [])
     else (s, [])
   end.
@@ -306,21 +314,24 @@ Definition h_inread (s : pst) (c : N) (good : bool) (len tag : N) : pst * list o
 Definition find_rs (irid : N) (l : list rsp) : option rsp := find (fun r => s_irid r =? irid) l.
 Definition drop_rs (irid : N) (l : list rsp) : list rsp := filter (fun r => negb (s_irid r =? irid)) l.
 
-(* send_response: the response future writes the frame (or gives up) *)
-Definition h_uresp (cf : cfg) (s : pst) (irid len tag gate now : N) : pst * list out :=
+(* what the feedback receiver of send_response_with_feedback sees when the response future ends *)
+Definition feed (fb : bool) (irid : N) (ok : bool) : list out := if fb then [OFeed irid ok] else [].
+
+(* send_response / send_response_with_feedback: the response future writes the frame (or gives up) *)
+Definition h_uresp (cf : cfg) (s : pst) (irid len tag : N) (fb : bool) (gate now : N) : pst * list out :=
   match find_rs irid (rsps s) with
   | None => (s, [])
   | Some r =>
     match s_w r with
     | Some _ => (s, [])
     | None =>
-      if max_size cf <? len then (set_rsps s (drop_rs irid (rsps s)), [])
+      if max_size cf <? len then (set_rsps s (drop_rs irid (rsps s)), feed fb irid false)
       else match gate with
            | 0 => (set_rsps s (map (fun x => if s_irid x =? irid
-                                             then mkRs irid (s_chan r) (Some (len, tag, now + tmo cf)) else x)
+                                             then mkRs irid (s_chan r) (Some (len, tag, now + tmo cf)) fb else x)
                                    (rsps s)), [])
-           | 1 => (set_rsps s (drop_rs irid (rsps s)), [OWire (s_chan r) len tag])
-           | _ => (set_rsps s (drop_rs irid (rsps s)), [])
+           | 1 => (set_rsps s (drop_rs irid (rsps s)), OWire (s_chan r) len tag :: feed fb irid true)
+           | _ => (set_rsps s (drop_rs irid (rsps s)), feed fb irid false)
            end
     end
   end.
@@ -335,7 +346,8 @@ Definition rsp_gate (s : pst) (c : N) (ok : bool) : pst * list out :=
   | Some r =>
     match s_w r with
     | Some (len, tag, _) =>
-      (set_rsps s (drop_rs (s_irid r) (rsps s)), if ok then [OWire c len tag] else [])
+      (set_rsps s (drop_rs (s_irid r) (rsps s)),
+       (if ok then [OWire c len tag] else []) ++ feed (s_fb r) (s_irid r) ok)
     | None => (s, [])
     end
   | None => (s, [])
@@ -343,6 +355,11 @@ Definition rsp_gate (s : pst) (c : N) (ok : bool) : pst * list out :=
 
 Definition rsp_advance (s : pst) (now : N) : pst :=
   set_rsps s (filter (fun r => match s_w r with Some (_, _, dl) => negb (dl <=? now) | None => true end) (rsps s)).
+(* the writes that time out drop their feedback sender *)
+Definition rsp_advance_out (s : pst) (now : N) : list out :=
+  flat_map (fun r => match s_w r with
+                     | Some (_, _, dl) => if dl <=? now then feed (s_fb r) (s_irid r) false else []
+                     | None => [] end) (rsps s).
 
 (* ------------------------------------------------------------------ environment *)
 
@@ -389,7 +406,7 @@ Inductive ev :=
 | EAdvance (dt : N)
 | EInOpen (p gate : N)
 | EInReq (k len tag : N)
-| EURespond (k len tag : N)
+| EURespond (k len tag : N) (fb : bool)
 | EUReject (k : N)
 | EBreakConn (p : N).
 
@@ -542,7 +559,7 @@ Definition step (cf : cfg) (st : pst * env) (e : ev) : (pst * env) * list out * 
   | EAdvance dt =>
     let t := now en + dt in
     let '(s1, o) := fut_advance s t in
-    (rsp_advance s1 t, mkE (next_sid en) (conns en) (opens en) (chans en) t (hpend en), o, None)
+    (rsp_advance s1 t, mkE (next_sid en) (conns en) (opens en) (chans en) t (hpend en), o ++ rsp_advance_out s1 t, None)
   | EInOpen p gate =>
     match conn_of p en with
     | None => (s, en, [], None)
@@ -559,7 +576,7 @@ Definition step (cf : cfg) (st : pst * env) (e : ev) : (pst * env) * list out * 
       let c := k mod N.of_nat (length (chans en)) in
       match nth_error (chans en) (N.to_nat c) with
       | Some ch =>
-        if negb (c_out ch) && negb (c_seen ch) then
+        if negb (c_out ch) then
           let '(s1, o) := h_inread s c (len <=? max_size cf) len tag in
           (s1, mkE (next_sid en) (conns en) (opens en) (set_chan c (mkCh (c_gate ch) true false) (chans en))
                    (now en) (hpend en ++ sent_of o), o, Some c)
@@ -567,7 +584,7 @@ Definition step (cf : cfg) (st : pst * env) (e : ev) : (pst * env) * list out * 
       | None => (s, en, [], None)
       end
     end
-  | EURespond k len tag =>
+  | EURespond k len tag fb =>
     match nth_mod k (hpend en) with
     | None => (s, en, [], None)
     | Some irid =>
@@ -575,7 +592,7 @@ Definition step (cf : cfg) (st : pst * env) (e : ev) : (pst * env) * list out * 
                   | Some r => match nth_error (chans en) (N.to_nat (s_chan r)) with
                               | Some ch => c_gate ch | None => 2 end
                   | None => 2 end in
-      let '(s1, o) := h_uresp cf s irid len tag gate (now en) in
+      let '(s1, o) := h_uresp cf s irid len tag fb gate (now en) in
       (s1, mkE (next_sid en) (conns en) (opens en) (chans en) (now en)
                (filter (fun x => negb (x =? irid)) (hpend en)), o, Some irid)
     end
@@ -599,6 +616,21 @@ Fixpoint run (cf : cfg) (st : pst * env) (l : list ev) : (pst * env) * list out 
   | e :: t => let '(st1, o, _) := step cf st e in
               let '(st2, o2) := run cf st1 t in (st2, o ++ o2)
   end.
+
+(* the same run, stimulus by stimulus: (stimulus, what was observed, resolved target) *)
+Fixpoint run_steps (cf : cfg) (st : pst * env) (l : list ev) : list (ev * list out * option N) :=
+  match l with
+  | [] => []
+  | e :: t => let '(st1, o, tg) := step cf st e in (e, o, tg) :: run_steps cf st1 t
+  end.
+Definition outs_of (l : list (ev * list out * option N)) : list out :=
+  flat_map (fun x => snd (fst x)) l.
+
+(* carriers (resolved targets) of the stimuli that produced a RequestReceived *)
+Definition has_req (o : list out) : bool :=
+  existsb (fun x => match x with OReq _ _ _ _ => true | _ => false end) o.
+Definition req_chans (l : list (ev * list out * option N)) : list N :=
+  flat_map (fun x => match snd x with Some c => if has_req (snd (fst x)) then [c] else [] | None => [] end) l.
 
 (* terminal events carrying request id r *)
 Definition is_term (r : N) (o : out) : bool :=
